@@ -266,6 +266,69 @@ func legVirtualOS(path string) []any {
 	return out
 }
 
+// two-path operations with the arguments in (possibly) different mounts: the script path is paired with
+// an anchor inside each mount, in both argument positions.  One entry per (mount table, cwd, anchor,
+// position, method): which mount was called and with which two relative paths.
+func legVirtualOS2(path string) []any {
+	out := []any{}
+	type op2 struct {
+		code string
+		call func(v *ros.VirtualOS, a, b string) error
+	}
+	ops := []op2{
+		{"rn", func(v *ros.VirtualOS, a, b string) error { return v.Rename(a, b) }},
+		{"sl", func(v *ros.VirtualOS, a, b string) error { return v.Symlink(a, b) }},
+	}
+	for mi, ms := range mountSets {
+		for ci, cwd := range baseSegs {
+			var log []recCall
+			mounts := map[string]*ros.Mount{}
+			byName := map[string][]string{}
+			for _, m := range ms {
+				t := locString(m)
+				mounts[t] = &ros.Mount{Source: &recFS{name: t, log: &log}, Target: t, Type: "rec"}
+				byName[t] = m
+			}
+			v := ros.NewVirtualOS(context.Background(), ros.WithMounts(mounts), ros.WithCwd(locString(cwd)))
+			for _, m := range ms {
+				anchor := append(append([]string{}, m...), "zk")
+				for _, first := range []bool{true, false} {
+					for _, op := range ops {
+						log = log[:0]
+						var err error
+						pan := false
+						func() {
+							defer func() {
+								if x := recover(); x != nil {
+									pan = true
+								}
+							}()
+							if first {
+								err = op.call(v, locString(anchor), path)
+							} else {
+								err = op.call(v, path, locString(anchor))
+							}
+						}()
+						o := N{"ms": mi + 1, "cwd": ci + 1, "an": anchor, "first": first, "op": op.code,
+							"ok": false, "si": false, "m": []string{}, "r1": []string{}, "r2": []string{}}
+						if pan || len(log) != 2 || log[0].mount != log[1].mount {
+							o["si"] = pan || err == nil || len(log) != 0
+						} else {
+							o["ok"] = true
+							o["m"] = byName[log[0].mount]
+							for _, c := range log {
+								o[fmt.Sprintf("r%d", c.argi)] = comps(c.arg)
+							}
+						}
+						out = append(out, o)
+					}
+				}
+			}
+		}
+	}
+	return out
+}
+
 // VirtualOS.MkdirTemp("", pattern): the script-supplied pattern becomes part of the path handed
 // to the mount of the temporary directory.  Components are reported as ".", ".." or "x".
 func legMkdirTemp(pattern string) []any {
@@ -887,6 +950,7 @@ func cmdReplay(args []string) {
 				r["rp"] = legResolvePath(p)
 				r["vos"] = legVirtualOS(p)
 				r["mt"] = legMkdirTemp(p)
+				r["vos2"] = legVirtualOS2(p)
 				if len(segsOf(c["segs"])) <= *fsmax {
 					if w == nil {
 						w = newWorld(filepath.Join(*work, fmt.Sprintf("u%d", k)))
@@ -968,6 +1032,10 @@ func abstract(r N, cls map[string]any) {
 		for _, o := range v.(N)["outs"].([]any) {
 			m(o.(N)["rel"].([]string))
 		}
+	}
+	for _, o := range r["vos2"].([]any) {
+		m(o.(N)["r1"].([]string))
+		m(o.(N)["r2"].([]string))
 	}
 	for _, o := range r["fs"].([]any) {
 		for _, t := range o.(N)["t"].([][]string) {
